@@ -478,6 +478,8 @@ def run(ctx):
         if i < 2:
             ctx.sample(dict(layer="random", ops=[list(o) for o in ops][:12], violated=bad))
     ctx.seen("texts", sorted(TEXTS))
+    ctx.layer("failpoints", "observed" if ctx.counters.get("transient/fp/raised") else "unreachable",
+              faults_raised=ctx.counters.get("transient/fp/raised", 0), near_limit_failures=ctx.counters.get("transient/deep/raised", 0))
 
 
 def replay(ctx, kind, w):
